@@ -1,7 +1,7 @@
 (* Extraction of the executable models (ExtrOcamlBasic only: bool/option/unit/list/prod/sumbool
    become the OCaml types; N, Z, positive, nat stay Coq datatypes). *)
 From Coq Require Import Extraction ExtrOcamlBasic.
-From GGRS Require Import Base Varint Rle Codec Builder Queue Sync P2P TimeSync Endpoint SyncTest Spectator.
+From GGRS Require Import Base Varint Rle Codec Builder Queue Sync P2P TimeSync Endpoint SyncTest Spectator Desync.
 (* Z is used by every level driver *)
 From Coq Require Import ZArith.
 Extraction Language OCaml.
@@ -16,4 +16,5 @@ Extraction "model.ml" Z.add N.add Nat.add
   Endpoint.ep_new Endpoint.step Endpoint.drain Endpoint.network_stats Endpoint.last_recv_frame Endpoint.is_running Endpoint.is_synchronized Z.mul Z.div Z.modulo
   P2P.p2p_new P2P.gossip P2P.advance P2P.api_add_local_input P2P.api_disconnect_player P2P.api_set_input_delay
   SyncTest.st_new SyncTest.st_add_local_input SyncTest.st_advance_frame SyncTest.st_saved
-  P2P.ev_input P2P.ev_disconnected P2P.with_running P2P.confirmed_frame.
+  P2P.ev_input P2P.ev_disconnected P2P.with_running P2P.confirmed_frame
+  Desync.ds_new Desync.ds_advance Desync.report.
